@@ -23,6 +23,22 @@ claim('C17', 'Coq proof (induction on fuel/lists, Z arithmetic with lia/nia) + d
       'model hand-written, tied by differential cases; task functions deterministic; reducer associative.',
       'DESIGN.md sec. 3 C17')
 
+claim('C07', 'Coq proof (nested induction over the value universe, uniqueness of sorted permutations) + recorded sha1 chunk stream == model stream + cross-process digest comparison',
+      'Theorem: for ANY hash function and digest order the chunk sequence fed to the hash is invariant under permuting set/frozenset/dict '
+      'iteration order at any depth and under array layout (Props/C07.v); the executable stream is proved equal to that sequence when children '
+      'are listed in digest order.  Tie: every chunk the real code feeds to sha1 is recorded in separate interpreters with different '
+      'PYTHONHASHSEED and compared with the model stream in coqc.',
+      'Kernel + vm_compute; SHA-1 and pickle outside the model (digests symbolic; dict keys with distinct digests is a premise); '
+      'harness: value generator/realiser, recorder, interning.',
+      'DESIGN.md sec. 3 C07')
+claim('C08', 'Coq refutation witness (vm_compute + inversion) + in-Coq classification of every observed collision + exhaustive bucketed pair search',
+      'The injectivity statement is FALSE of the faithful model and of the code (Theorem C08_refuted; known finding D1, not repairable '
+      'without changing every identifier).  The check enumerates all invocations up to a node bound plus the pairs the property names, and '
+      'accepts a collision only if Coq evaluates: model stream equal AND delimited stream different; anything else is a violation.',
+      'Kernel + vm_compute; A1 (SHA-1 collision-free) for the search; the general injectivity of the delimited stream is not yet proved '
+      '(partial: classification is per observed pair).',
+      'DESIGN.md sec. 3 C08')
+
 ALL = ['C%02d' % i for i in range(1, 21)]
 
 
